@@ -58,6 +58,11 @@ def enumerate_cases(tier, scope):
                             for raising in (None, 0, 1):
                                 yield {'program': cat[name], 'schedule': [['tick', 2], ['pause', 'p']], 'hooks': [{'hook': hook, 'occ': occ, 'pos': pos, 'do': do}], 'cleanup_raises': raising, 'listener_twice': occ == 2, 'cleanup_follow_up': pos == 'post'}
     elif scope == 'listener':
+        # a listener that close()s the process as soon as it hears that it terminated (before on_terminated does)
+        for name in ('wait1', 'chain', 'waitwait', 'async2', 'failing', 'selfkill'):
+            for on in ('on_process_finished', 'on_process_killed', 'on_process_excepted'):
+                for sched in list(gen.schedules([['pause', 'p'], ['play'], ['kill', 'kt'], ['fail', 'f']], 1, 3)) + list(gen.schedules([['pause', 'p'], ['kill', 'kt'], ['fail', 'f']], 2, 2)):
+                    yield {'program': cat[name], 'schedule': sched, 'listener': [{'on': on, 'occ': 1, 'do': ['close', None]}]}
         notifs = ['on_process_running', 'on_process_waiting', 'on_process_paused', 'on_process_played', 'on_output_emitted']
         for name in ('wait1', 'chain', 'waitwait', 'async2'):
             for on in notifs:
@@ -151,6 +156,7 @@ def execute(case):
                         v('excepted-result', f'result() gave {res[:2]}, not the exception {exc!r}')
                     if isinstance(exc, ProgError):
                         raised = list(w.extra.get('raised', [])) + [x for lst in w.extra.get('cb_excs', {}).values() for x in lst]
+                        raised += [r['_exc'] for r in w.futs if r['what'] == 'fail' and r.get('_exc') is not None]
                         if not any(exc is r for r in raised):
                             v('excepted-not-original', f'{exc!r} is not the object the program raised')
                 if views['killed'] != ['ok', False]:
